@@ -304,6 +304,15 @@ pub fn run(ctx: &mut Ctx) {
         for v in values {
             emit_text(ctx, &langs, "slot", &slot.replace("X", v));
         }
+        // long literals and names, at every byte alignment of their multi-byte characters
+        for pad in 0..4usize {
+            let long_lit = format!("'{}{}'", "a".repeat(pad), "\u{e9}".repeat(40));
+            let long_cjk = format!("\"{}{}\"", "a".repeat(pad), "\u{65e5}".repeat(30));
+            let long_id = format!("{}{}", "v".repeat(60 + pad), "_1");
+            for v in [long_lit, long_cjk, long_id] {
+                emit_text(ctx, &langs, "slot-long", &slot.replace("X", &v));
+            }
+        }
     }
     // ---- character-level mutations of well-formed templates ----
     let mut g = Gen::new(ctx.seed ^ 0x1C01);
